@@ -3,6 +3,7 @@
 // SeqMutex: Mutex for single-threaded engines that records owner state (re-lock, unlock of a free mutex, locks held
 // inside policy callbacks).
 #pragma once
+#include <type_traits>
 #include "verif.hpp"
 #include <map>
 #include <vector>
@@ -66,12 +67,23 @@ struct ShadowState {
 };
 inline ShadowState *g_shadow = nullptr;
 
-template<size_t PAGE, size_t SLAB, size_t SB, int NB, bool ALIGNED, bool POISON>
-struct ShadowPolicy {
-	static constexpr size_t pagesize = PAGE;
-	static constexpr size_t slabsize = SLAB;
-	static constexpr size_t sb_size = SB;
-	static constexpr int num_buckets = NB;
+// The geometry constants a policy may spell out or leave to the pool's defaults (page 4 KiB, slab 256 KiB, superblock 256 KiB,
+// 13 classes). OMIT is a bit mask of the constants this policy does NOT declare (1 sb_size, 2 slabsize, 4 pagesize, 8 num_buckets);
+// the model always reads the m_* names, for an omitted constant the template argument has to be the documented default.
+template<size_t V> struct DeclPagesize { static constexpr size_t pagesize = V; };
+template<size_t V> struct DeclSlabsize { static constexpr size_t slabsize = V; };
+template<size_t V> struct DeclSbSize { static constexpr size_t sb_size = V; };
+template<int V> struct DeclNumBuckets { static constexpr int num_buckets = V; };
+template<int> struct DeclNothing {};
+template<size_t PAGE, size_t SLAB, size_t SB, int NB, bool ALIGNED, bool POISON, unsigned OMIT = 0>
+struct ShadowPolicy : std::conditional_t<(OMIT & 4) != 0, DeclNothing<0>, DeclPagesize<PAGE>>, std::conditional_t<(OMIT & 2) != 0, DeclNothing<1>, DeclSlabsize<SLAB>>,
+		std::conditional_t<(OMIT & 1) != 0, DeclNothing<2>, DeclSbSize<SB>>, std::conditional_t<(OMIT & 8) != 0, DeclNothing<3>, DeclNumBuckets<NB>> {
+	static constexpr size_t m_pagesize = PAGE, m_slabsize = SLAB, m_sb_size = SB;
+	static constexpr int m_num_buckets = NB;
+	static_assert(!(OMIT & 4) || PAGE == 0x1000, "omitted pagesize: the pool's default is 4 KiB");
+	static_assert(!(OMIT & 2) || SLAB == (1 << 18), "omitted slabsize: the pool's default is 256 KiB");
+	static_assert(!(OMIT & 1) || SB == (1 << 18), "omitted sb_size: the pool's default is 256 KiB");
+	static_assert(!(OMIT & 8) || NB == 13, "omitted num_buckets: the pool's default is 13");
 	static constexpr bool aligned = ALIGNED;
 	static constexpr bool poisoning = POISON;
 	ShadowState &st;
